@@ -34,16 +34,21 @@ class RecFile(io.StringIO):
         return super().write(t)
 
 
-class Boom(Exception):
+class Boom(BaseException):
+    """Injected fault. BoomE is the ordinary kind (an Exception); a plain Boom is not an Exception (like KeyboardInterrupt raised while a frame is drawn)."""
+
+
+class BoomE(Boom, Exception):
     pass
 
 
 class Fault:
     """Shared render counter: raises at the fail_at-th render (and afterwards if persistent)."""
 
-    def __init__(self, fail_at, persistent):
+    def __init__(self, fail_at, persistent, base=False):
         self.fail_at = fail_at
         self.persistent = persistent
+        self.exc = Boom if base else BoomE
         self.count = 0
         self.fired = 0
 
@@ -52,7 +57,7 @@ class Fault:
         self.count += 1
         if self.fail_at is not None and (k == self.fail_at or (self.persistent and k > self.fail_at)):
             self.fired += 1
-            raise Boom("render %d" % k)
+            raise self.exc("render %d" % k)
 
 
 class Frame:
@@ -81,7 +86,8 @@ def make_consoles(W, H):
 
 
 def text_lines():
-    return st.lists(st.sampled_from(WORDS), min_size=1, max_size=3)
+    # an empty list stands for print() without arguments
+    return st.one_of(st.lists(st.sampled_from(WORDS), min_size=1, max_size=3), st.lists(st.sampled_from(WORDS), min_size=1, max_size=3), st.lists(st.sampled_from(WORDS), min_size=1, max_size=3), st.just([]))
 
 
 def frame_lines(maxh):
@@ -131,8 +137,8 @@ def history(draw, with_faults):
             "redirect_err": draw(st.booleans()), "disable": kind == "progress" and draw(st.sampled_from([False, False, False, True]))}
     if with_faults:
         spec["fault"] = draw(st.one_of(
-            st.builds(lambda k, p, c: {"mode": "render", "at": k, "persistent": p, "catch": c}, st.integers(0, 12), st.booleans(), st.booleans()),
-            st.builds(lambda j: {"mode": "body", "after": j}, st.integers(0, 14)),
+            st.builds(lambda k, p, c, b: {"mode": "render", "at": k, "persistent": p, "catch": c, "base": b}, st.integers(0, 12), st.booleans(), st.booleans(), st.sampled_from([False, False, True])),
+            st.builds(lambda j, b: {"mode": "body", "after": j, "base": b}, st.integers(0, 14), st.sampled_from([False, False, True])),
         ))
     return spec
 
@@ -148,7 +154,7 @@ class Runner:
         self.vt = VT(self.W, self.H)
         self.fed = 0
         f = spec.get("fault") or {}
-        self.fault = Fault(f.get("at") if f.get("mode") == "render" else None, f.get("persistent", False))
+        self.fault = Fault(f.get("at") if f.get("mode") == "render" else None, f.get("persistent", False), f.get("base", False))
         self.kind = spec["kind"]
         self.transient = spec["transient"] if self.kind != "status" else True
         self.started = False
@@ -289,7 +295,11 @@ class Runner:
         top = self.region_top()
         printed_text = None
         try:
-            if name == "print":
+            if name == "print" and not op[1]:
+                printed_text = ""   # print() without arguments: one empty line
+                d.console.print()
+                self.twin.print()
+            elif name == "print":
                 printed_text = "\n".join(op[1])
                 d.console.print(printed_text)
                 self.twin.print(printed_text)
@@ -527,7 +537,7 @@ class Histories(Part):
 class Faults(Part):
     name = "faults"
     rule = ("histories (<= 14 ops) x a fault: the displayed renderable raises at render index k (one-shot or persistent; propagating out of the live block, or "
-            "caught by the program which then continues), or the block body raises after j ops; required: the exception propagates, stdout/stderr, render hook, "
+            "caught by the program which then continues), or the block body raises after j ops; the exception is an Exception or a bare BaseException (as KeyboardInterrupt is); required: the exception propagates, stdout/stderr, render hook, "
             "started flag and cursor are restored, and everything printed successfully stays on the screen; non-trivial = the fault fired between start and stop")
     budget = {"quick": (16, 400), "thorough": (16, 6000)}
     chunk = 250
@@ -559,7 +569,7 @@ class Faults(Part):
                         r.opi = i
                         if fault["mode"] == "body" and i == fault["after"]:
                             fired = True
-                            raise Boom("body")
+                            raise (Boom if fault.get("base") else BoomE)("body")
                         before = r.fault.fired
                         if fault["mode"] == "render" and not fault["catch"]:
                             ok = self.apply_uncaught(r, list(op))  # a Boom escapes from the block
@@ -608,7 +618,9 @@ class Faults(Part):
         """Like Runner.apply but a Boom escapes (the program does not catch it)."""
         name = op[0]
         d = r.display
-        if name == "print":
+        if name == "print" and not op[1]:
+            d.console.print()
+        elif name == "print":
             d.console.print("\n".join(op[1]))
         elif name == "log":
             d.console.log(op[1])
